@@ -5,14 +5,14 @@ cd /verif
 ids=${@:-$(ls seeded | grep '^C[0-9][0-9]$')}
 for id in $ids; do
   if ! git -C /repo diff --quiet; then echo "/repo is dirty, refusing"; exit 3; fi
-  if ! git -C /repo apply seeded/$id/patch.diff 2>/dev/null; then echo "$id PATCH-DOES-NOT-APPLY"; continue; fi
+  if ! git -C /repo apply /verif/seeded/$id/patch.diff 2>/dev/null; then echo "$id PATCH-DOES-NOT-APPLY"; continue; fi
   VERIF_NO_MUTANTS=1 timeout 3000 ./check $id --tier quick > seeded/$id/detect.log 2>&1; rc=$?
   git -C /repo checkout -- .
   python3 - "$id" "$rc" <<'PY'
 import json, re, sys, subprocess
 pid, rc = sys.argv[1], int(sys.argv[2])
 log = open('/verif/seeded/%s/detect.log' % pid).read()
-keys = sorted(set(re.findall(r'^\s+key=(\S+)', log, re.M)))
+keys = sorted(set(re.findall(r'^\s+key=(.*?) obligation=', log, re.M)))
 p = '/verif/seeded/%s/meta.json' % pid
 m = json.load(open(p))
 head = subprocess.run(['git', '-C', '/repo', 'rev-parse', '--short', 'HEAD'], stdout=subprocess.PIPE).stdout.decode().strip()
